@@ -110,3 +110,14 @@ Definition topo_rank_ok (ordering nprocs PPN p : Z) : bool :=
   let nd := Topology_get_node ordering nn PPN p in
   let lp := Topology_get_local_proc ordering nn PPN p in
   (Topology_get_global_proc ordering nn PPN nd lp =? p) && (0 <=? nd) && (nd <? nn) && (0 <=? lp) && (lp <? PPN).
+
+(* what MPI_Comm_split(COMM_WORLD, color = get_node(rank), key = rank) yields for rank p of an nprocs-process
+   run: its rank inside local_comm is the number of lower ranks on the same node, the size of local_comm is the
+   number of ranks on that node *)
+Definition node_of (ordering nprocs PPN p : Z) : Z :=
+  Topology_get_node ordering (topo_num_nodes nprocs PPN) PPN p.
+Definition split_rank (ordering nprocs PPN : Z) (p : nat) : nat :=
+  length (filter (fun q => node_of ordering nprocs PPN q =? node_of ordering nprocs PPN (Z.of_nat p)) (ranks_upto p)).
+Definition split_size (ordering PPN : Z) (nprocs p : nat) : nat :=
+  length (filter (fun q => node_of ordering (Z.of_nat nprocs) PPN q =? node_of ordering (Z.of_nat nprocs) PPN (Z.of_nat p))
+                 (ranks_upto nprocs)).
